@@ -101,13 +101,18 @@ func (l *listener) accept() (Conn, error) {
 
 	localAddr, err := internal.SocketAddress(fd)
 	if err != nil {
+		_ = syscall.Close(fd)
 		return nil, err
 	}
 
 	remoteAddr := internal.FromSockaddr(addr)
 
-	conn := newConn(l.ioc, fd, localAddr, remoteAddr)
-	return conn, syscall.SetNonblock(conn.RawFd(), true)
+	if err := syscall.SetNonblock(fd, true); err != nil {
+		_ = syscall.Close(fd)
+		return nil, os.NewSyscallError("set_nonblock", err)
+	}
+
+	return newConn(l.ioc, fd, localAddr, remoteAddr), nil
 }
 
 func (l *listener) Close() error {
